@@ -386,6 +386,9 @@ pub fn c07(opts: &Opts) -> Report {
 
 pub fn c09(opts: &Opts) -> Report {
     let mut rep = Report::new("C09");
+    if want(opts, "bulk") {
+        crate::props::storm::bulk_cancel(&mut rep, opts);
+    }
     let mut to = timer_opts(opts);
     to.lattice = vec![1, 2, 1000, 1_000_000_000];
     if want(opts, "timer") {
